@@ -25,6 +25,7 @@ other supported action.
 import os
 import sys
 import threading
+import weakref
 from collections import deque
 from types import FrameType
 from typing import Tuple, TYPE_CHECKING, List, Deque, Optional
@@ -122,16 +123,25 @@ class TriggerHandler:
         # object for our whole life: a restart from another thread must not take away what the first thread is owed. Not
         # keyed by the ident of the thread: the ident of a thread that has ended is given to the next thread created.
         self.__start_thread = threading.local()
-        # the frames we have work pending for (in any thread): while we wait for their line or function to complete they
-        # are ours, also after we have been shut down and another agent has been started
-        self.__waiting_for = []
+        # what each thread has pending (weak references: what a thread that has ended left behind is released with it).
+        # While we wait for the line or the function of a frame to complete the frame is ours, also after we have been
+        # shut down and another agent has been started
+        self.__pending_of_threads = []
         self.__hooks_installed = False
         self.__shutdown = False
         self._push_service = push_service
         self._tp_config: List[Trigger] = []
         self._config = config
         self._config.add_listener(TracepointHandlerUpdateListener(self))
-        self._callbacks: ThreadLocal[Deque[CallbackContext]] = ThreadLocal(lambda: deque())
+        self._callbacks: ThreadLocal[Deque[CallbackContext]] = ThreadLocal(self.__new_pending)
+
+    def __new_pending(self) -> Deque[CallbackContext]:
+        pending = deque()
+        # (those that are gone are dropped here, not by a callback of the reference: that would run at any moment, also
+        # when the application has no stack left for it)
+        self.__pending_of_threads = [known for known in self.__pending_of_threads if known() is not None]
+        self.__pending_of_threads.append(weakref.ref(pending))
+        return pending
 
     def start(self):
         """Start the trigger handler."""
@@ -204,6 +214,10 @@ class TriggerHandler:
         while isinstance(getattr(remembered, '__self__', None), TriggerHandler) and remembered.__self__.__shutdown \
                 and seen < 8:
             other = remembered.__self__
+            if not for_new_threads and other._callbacks.is_set:
+                # it still has work pending on this thread (a span to close when the function returns): it needs the
+                # events of the thread until then, and leaves by itself afterwards
+                break
             if for_new_threads or not hasattr(other.__start_thread, 'old'):
                 remembered = other.__old_thread_trace
             else:
@@ -223,7 +237,8 @@ class TriggerHandler:
             # a config update that was still queued when we were shut down must not bring the tracepoints back
             return
         self._tp_config = new_config
-        if len(new_config) > 0 and not self._config.NO_TRACE:
+        if len(new_config) > 0 and self.__hooks_installed and not self._config.NO_TRACE:
+            # (an agent that has not been started acts nowhere: it does not reach into the calls in progress either)
             self.__trace_running_calls()
 
     def __trace_running_calls(self):
@@ -252,21 +267,18 @@ class TriggerHandler:
         other = getattr(function, '__self__', None)
         if not isinstance(other, TriggerHandler) or other is self or not other.__shutdown:
             return False
-        return not any(waiting is frame for waiting in list(other.__waiting_for))
+        return not any(context.frame is frame
+                       for ref in list(other.__pending_of_threads) for context in list(ref() or ()))
 
     def __successor_on(self, frame: FrameType) -> Optional['TriggerHandler']:
         while frame is not None:
             other = getattr(frame.f_trace, '__self__', None)
-            if isinstance(other, TriggerHandler) and other is not self and not other.__shutdown:
+            if isinstance(other, TriggerHandler) and other is not self and other.__hooks_installed \
+                    and not other.__shutdown:
+                # (started, and not shut down since: an agent object that was never started is nobody's successor)
                 return other
             frame = frame.f_back
         return None
-
-    def __no_longer_waiting_for(self, frame: FrameType):
-        for index, waiting in enumerate(self.__waiting_for):
-            if waiting is frame:
-                del self.__waiting_for[index]
-                return
 
     def trace_call(self, frame: FrameType, event: str, arg):
         """
@@ -410,7 +422,6 @@ class TriggerHandler:
             logging.debug("Callbacks registered: %s", callbacks)
             self._callbacks.get().append(
                 CallbackContext(event, file, line, function, callbacks, frame))
-            self.__waiting_for.append(frame)
             # the callbacks refer back to the trigger context: it must not refer to them once they are handed over,
             # or it (and the frame) is only released by the garbage collector
             trigger_context.callbacks = []
@@ -435,13 +446,11 @@ class TriggerHandler:
             # context off and putting it back, or the context - the span to close, the snapshot to send - is lost
             if len(pending) > 0 and pending[-1].at_location(event, file, line, function_name, frame):
                 context: CallbackContext = pending.pop()
-                self.__no_longer_waiting_for(context.frame)
                 context.process(ctx, event, frame, arg)
                 # the same event also completes whatever else is pending for this very frame (e.g. a method span
                 # and a span on the line that returns)
                 while len(pending) > 0 and pending[-1].frame is frame \
                         and pending[-1].at_location(event, file, line, function_name, frame):
-                    self.__no_longer_waiting_for(frame)
                     pending.pop().process(ctx, event, frame, arg)
         finally:
             # also when a callback failed: never leave an empty entry behind for this thread
